@@ -320,6 +320,40 @@ def trunc_real(r):
     return z3.If(r >= 0, z3.ToInt(r), -z3.ToInt(-r))
 
 
+class FormatTrace:
+    """Opt-in tracing of number formatting: inside `with FormatTrace() as ft:` a
+    symbolic number formats as the token \u27e6k\u27e7 and ft.terms[k] is its term.  Only
+    for obligations about *formatted output* of code that does not compare strings."""
+    active = None
+
+    def __init__(self):
+        self.terms = []
+
+    def __enter__(self):
+        self.prev = FormatTrace.active
+        FormatTrace.active = self
+        return self
+
+    def __exit__(self, *a):
+        FormatTrace.active = self.prev
+        return False
+
+    def token(self, t):
+        self.terms.append(t)
+        return "\u27e6%d\u27e7" % (len(self.terms) - 1)
+
+    def parse(self, text):
+        """-> list of str / z3 terms alternating"""
+        import re
+        out = []
+        for part in re.split("(\u27e6\\d+\u27e7)", text):
+            if part.startswith("\u27e6"):
+                out.append(self.terms[int(part[1:-1])])
+            elif part:
+                out.append(part)
+        return out
+
+
 class _Num:
     __slots__ = ("t",)
     _real = False
@@ -328,11 +362,15 @@ class _Num:
         raise Unsupported("symbolic number used as a hash key")
 
     def __repr__(self):
+        if FormatTrace.active is not None:
+            return FormatTrace.active.token(self.t)
         raise Unsupported("symbolic number stringified")
 
     __str__ = __repr__
 
     def __format__(self, spec):
+        if FormatTrace.active is not None and spec == "":
+            return FormatTrace.active.token(self.t)
         raise Unsupported("symbolic number formatted")
 
     # arithmetic ----------------------------------------------------------
